@@ -397,6 +397,13 @@ def rule_mro(chk):
                     arg = it.func.value
                 if arg is not None:
                     found.append((g, cfg, n, arg))
+    if not found:
+        for g in lookup:
+            for n in ctx.cfg(g).live:
+                if n.kind == "for_next" and any(s_ in unparse(n.ast.iter) for s_ in ("getmro", "__mro__", ".mro()")):
+                    chk.bad("C03.mro", "get_fields_for_exception:walks-the-MRO-in-order", chk.where(g, n.lineno),
+                            "extractor lookup iterates %s: not the exception class's MRO in its own order (the nearest registered class must win)" % unparse(n.ast.iter))
+                    return
     chk.need(found, "extractor lookup: no loop over an MRO found in %s" % [g.fq for g in lookup])
     for g, cfg, head, arg in found:
         txt = unparse(arg)
